@@ -3,6 +3,7 @@ import LexVerif.Spec.StdFloat
 import LexVerif.Spec.Shortest
 import LexVerif.Model.FormatDecimal
 import LexVerif.Model.Ops.ParseInt
+import LexVerif.Model.Ops.FormatError
 /-!
 # Driver — line-protocol evaluator of the Lean models and specifications
 
@@ -121,13 +122,20 @@ def specOf (feats : Features) (t : List String) : String :=
 /-- model column: the first handler that recognises the op answers.
 Each `Model/Ops/*.lean` exposes `handle : Features → List String → Option String`. -/
 def modelHandlers : List (Features → List String → Option String) :=
-  [LexVerif.Model.Ops.ParseInt.handle]
+  [LexVerif.Model.Ops.ParseInt.handle, LexVerif.Model.Ops.FormatError.handle]
 
 def modelOf (feats : Features) (t : List String) : String :=
   (modelHandlers.findSome? (fun h => h feats t)).getD "-"
 
+/-- specification handlers consulted before `specOf` (configuration errors pre-empt value specifications) -/
+def specHandlers : List (Features → List String → Option String) :=
+  [LexVerif.Model.Ops.FormatError.spec]
+
+def specOf' (feats : Features) (t : List String) : String :=
+  (specHandlers.findSome? (fun h => h feats t)).getD (specOf feats t)
+
 def runOp (feats : Features) (t : List String) : String :=
-  s!"M {modelOf feats t} | S {specOf feats t}"
+  s!"M {modelOf feats t} | S {specOf' feats t}"
 
 partial def loop (feats : Features) (h : IO.FS.Stream) (out : IO.FS.Stream) : IO Unit := do
   let line ← h.getLine
